@@ -535,7 +535,9 @@ impl<'a> GExec<'a> {
         }
         if let Some(l) = &res.abort_leak {
             let l = l.clone();
-            return ctx.check(false, props, "abort/partial-effects-survived", || l);
+            let _ = props;
+            ctx.harness(l);
+            return false;
         }
         true
     }
